@@ -8,7 +8,7 @@
 (* exported (TLC -simulate) and replayed step by step against the real          *)
 (* SCSI facade / SCSIDevice over a tmpfs node and the stand-in binding.          *)
 (***************************************************************************)
-EXTENDS Naturals, Sequences, TLC, Json
+EXTENDS TransportRules, Json
 
 CONSTANTS MaxLen, Detect, Tr      \* Tr: "sgio" (device node, replug detection) or "iscsi" (no node to go stale)
 
@@ -20,17 +20,20 @@ Vals == {1, 2, 3}
 
 Init == /\ node = "present" /\ fresh = TRUE
         /\ disk = [l \in LBAs |-> 0] /\ mine = [l \in LBAs |-> 0]
-        /\ fault = "none" /\ hist = <<>> /\ exported = FALSE
+        /\ fault = 0 /\ hist = <<>> /\ exported = FALSE
 
 Room == Len(hist) < MaxLen /\ ~exported
 
+\* the completions a target may be told to give the next command: CHECK CONDITION (with sense) and every
+\* status SAM names (TransportRules!Named); over SG_IO the binding hides the status byte
+FaultStatuses == {2, 8, 24, 40, 48, 64}
+Outcome(st) == IF st = 2 THEN "CheckCondition" ELSE IF Tr = "sgio" THEN "UnspecifiedError" ELSE Named(st)
 \* how one command fares on its way to the target: <<outcome, reaches the target, handle fresh afterwards>>
 Path == IF Detect /\ node = "absent" THEN <<"FileNotFoundError", FALSE, fresh>>
-        ELSE IF fault = "cc" THEN <<"CheckCondition", FALSE, IF Detect THEN TRUE ELSE fresh>>
-        ELSE IF fault = "busy" THEN <<IF Tr = "sgio" THEN "UnspecifiedError" ELSE "BusyStatus", FALSE, IF Detect THEN TRUE ELSE fresh>>
+        ELSE IF fault # 0 THEN <<Outcome(fault), FALSE, IF Detect THEN TRUE ELSE fresh>>
         ELSE <<"ok", TRUE, IF Detect THEN TRUE ELSE fresh>>
 \* a fault is consumed by the command that reaches the binding
-FaultAfter == IF Detect /\ node = "absent" THEN fault ELSE "none"
+FaultAfter == IF Detect /\ node = "absent" THEN fault ELSE 0
 
 Write(l, v) ==
     /\ Room
@@ -46,6 +49,14 @@ Read(l) ==
        /\ fresh' = p[3] /\ fault' = FaultAfter
        /\ hist' = Append(hist, [act |-> "read", lba |-> l, val |-> 0, out |-> p[1], data |-> IF p[1] = "ok" THEN disk[l] ELSE 0])
     /\ UNCHANGED <<node, disk, mine, exported>>
+\* the caller keeps ONE read command object, re-encodes its CDB for another block (cmd.cdb = cmd.build_cdb(...))
+\* and hands it to the facade's execute: to the target that is a READ like any other
+Reread(l) ==
+    /\ Room
+    /\ LET p == Path IN
+       /\ fresh' = p[3] /\ fault' = FaultAfter
+       /\ hist' = Append(hist, [act |-> "reread", lba |-> l, val |-> 0, out |-> p[1], data |-> IF p[1] = "ok" THEN disk[l] ELSE 0])
+    /\ UNCHANGED <<node, disk, mine, exported>>
 \* re-attaching sends one INQUIRY down the same path
 Reattach ==
     /\ Room
@@ -58,18 +69,21 @@ Env(a) ==
     /\ \/ a = "replug" /\ Tr = "sgio" /\ node = "present" /\ node' = node /\ fresh' = FALSE /\ fault' = fault
        \/ a = "unplug" /\ Tr = "sgio" /\ node = "present" /\ node' = "absent" /\ fresh' = FALSE /\ fault' = fault
        \/ a = "plug" /\ Tr = "sgio" /\ node = "absent" /\ node' = "present" /\ fresh' = FALSE /\ fault' = fault
-       \/ a = "arm_cc" /\ fault = "none" /\ fault' = "cc" /\ UNCHANGED <<node, fresh>>
-       \/ a = "arm_busy" /\ fault = "none" /\ fault' = "busy" /\ UNCHANGED <<node, fresh>>
     /\ hist' = Append(hist, [act |-> a, lba |-> 0, val |-> 0, out |-> "ok", data |-> 0])
     /\ UNCHANGED <<disk, mine, exported>>
+Arm(st) ==
+    /\ Room /\ fault = 0 /\ fault' = st
+    /\ hist' = Append(hist, [act |-> "arm", lba |-> 0, val |-> st, out |-> "ok", data |-> 0])
+    /\ UNCHANGED <<node, fresh, disk, mine, exported>>
 Export == /\ Len(hist) = MaxLen /\ ~exported
           /\ PrintT(<<"BEHAVIOUR", ToJson([detect |-> Detect, tr |-> Tr, steps |-> hist])>>)
           /\ exported' = TRUE /\ UNCHANGED <<node, fresh, disk, mine, fault, hist>>
 
 Next == \/ \E l \in LBAs, v \in Vals : Write(l, v)
-        \/ \E l \in LBAs : Read(l)
+        \/ \E l \in LBAs : Read(l) \/ Reread(l)
         \/ Reattach
-        \/ \E a \in {"replug", "unplug", "plug", "arm_cc", "arm_busy"} : Env(a)
+        \/ \E a \in {"replug", "unplug", "plug"} : Env(a)
+        \/ \E st \in FaultStatuses : Arm(st)
         \/ Export
 Spec == Init /\ [][Next]_vars
 
@@ -77,5 +91,5 @@ Spec == Init /\ [][Next]_vars
 \* a successful one arrived, whatever happened to the node in between
 SameMedium == mine = disk
 \* with detection on, a command that succeeded went through a handle of the node now at the path
-FreshAfterSuccess == (Detect /\ hist # <<>> /\ hist[Len(hist)].act \in {"read", "write", "reattach"} /\ hist[Len(hist)].out = "ok") => fresh
+FreshAfterSuccess == (Detect /\ hist # <<>> /\ hist[Len(hist)].act \in {"read", "reread", "write", "reattach"} /\ hist[Len(hist)].out = "ok") => fresh
 =============================================================================
